@@ -200,6 +200,18 @@ func (r *Report) Sample(v any) {
 // Outcome counts a distinct observed outcome class.
 func (r *Report) Outcome(o string) { r.mu.Lock(); r.Outcomes[o]++; r.mu.Unlock() }
 
+// OutcomeN counts n observations of an outcome class (for hot loops that tally locally).
+func (r *Report) OutcomeN(o string, n int64) { r.mu.Lock(); r.Outcomes[o] += n; r.mu.Unlock() }
+
+// Tally is a local outcome counter for hot loops; Flush adds it to the report.
+type Tally map[string]int64
+
+func (t Tally) Flush(r *Report) {
+	for k, v := range t {
+		r.OutcomeN(k, v)
+	}
+}
+
 // Count bumps a named counter.
 func (r *Report) Count(name string, n int64) { r.mu.Lock(); r.Counters[name] += n; r.mu.Unlock() }
 
